@@ -54,6 +54,10 @@ let () =
            | PBadUtf8 -> print_endline "BADUTF8"
            | PNoLanguage -> print_endline "NOLANG"
            | PFuel -> print_endline "FUEL")
+        | ["U"; h] ->      (* UTF-16 units of fromUTF8, and the way back *)
+          (match from_utf8 (unh h) with
+           | None -> print_endline "BADUTF8"
+           | Some u -> print_endline (String.concat " " ("OK" :: List.map (fun x -> string_of_int (int_of_z x)) u) ^ " | " ^ hx (to_utf8 u)))
         | ["TABLE"; l] ->    (* the start characters of a language: cp:character:nlonger *)
           (match flatten_for (lang l) with
            | None -> print_endline "NOLANG"
